@@ -164,6 +164,7 @@ func BuildArgs(r Row) (map[string]any, string, error) {
 	}
 	switch r.Shape {
 	case "minimal":
+	case "proxy_minimal", "proxy_actor":
 	case "args_absent", "args_nonobject":
 		a = map[string]any{}
 	case "extra_key":
